@@ -1,7 +1,7 @@
 """C05 - errors in match components are handled exactly as the error policy says.
 
 Fault injection: each member carries one erroring component that raises on
-exactly a planted line set (eight error kinds: exception in _decide_match, in
+exactly a planted line set (nine error kinds: exception in _decide_match, in
 _produce_value, argument-type mismatch, a function's own rule, a Python
 arithmetic exception, an error on the right of '->', an error inside not()).
 Configuration: every subset of {raise, collect, stop, fail, print, quiet}
@@ -15,12 +15,12 @@ from .. import seams, ops, extfuncs, world as W
 from .common import Out, with_, REAL_ALL, STUB_ALL
 
 ID = "C05"
-TIERS = {"quick": {"n": 15360, "chunk": 192}, "thorough": {"n": 491520, "chunk": 512, "wall_cap": 3300}}
+TIERS = {"quick": {"n": 14400, "chunk": 192}, "thorough": {"n": 460800, "chunk": 576, "wall_cap": 3300}}
 FLAGS = ["raise", "collect", "stop", "fail", "print", "quiet"]
-KINDS = ["exc_match", "exc_value", "arg_type", "rule", "py_exc", "nested_when", "nested_not", "arg_match"]
-DATA_DRIVEN = {"arg_type", "rule", "py_exc", "nested_when", "arg_match"}
+KINDS = ["exc_match", "exc_value", "arg_type", "rule", "py_exc", "nested_when", "nested_not", "arg_match", "rule_in_or"]
+DATA_DRIVEN = {"arg_type", "rule", "py_exc", "nested_when", "arg_match", "rule_in_or"}
 RULE = (
-    "scenario i takes policy subset (i mod 64) and error kind ((i div 64) mod 8), so each of the 512 cells is visited n/448 times per batch; within a cell the planted line set (first/last scanned line, header record, "
+    "scenario i takes policy subset (i mod 64) and error kind ((i div 64) mod 9), so each of the 576 cells is visited n/448 times per batch; within a cell the planted line set (first/last scanned line, header record, "
     "after a blank, adjacent pairs, several lines), scan window, blank records, standalone vs managed (7 run forms), group size 1-2 and a validation-mode override on one member are random. "
     "Non-trivial = at least one planted line was evaluated; distinct = (policy, kind, mode/method, position classes of the planted lines, override)."
 )
@@ -35,8 +35,8 @@ STUB = STUB_ALL
 
 OVERRIDES = ["raise", "no-raise", "stop", "no-stop", "fail", "no-fail", "print", "no-print", "match", "no-match", "stop,match", "fail,no-print", "no-stop,no-fail", "raise,no-print", "no-raise,stop,fail"]
 # components of the template always vote 'match' on a clean line, except not(simfault()) which votes no
-MATCH_MODE_HONOURED = {"exc_value", "arg_type", "py_exc", "nested_when", "arg_match", "nested_not"}
-CLEAN_LINE_MATCHES = {"arg_match": True, "exc_match": True, "exc_value": True, "arg_type": True, "rule": True, "py_exc": True, "nested_when": True, "nested_not": False}
+MATCH_MODE_HONOURED = {"exc_value", "arg_type", "py_exc", "nested_when", "arg_match", "nested_not"}  # rule_in_or: not measured, not asserted
+CLEAN_LINE_MATCHES = {"rule_in_or": True, "arg_match": True, "exc_match": True, "exc_value": True, "arg_type": True, "rule": True, "py_exc": True, "nested_when": True, "nested_not": False}
 
 
 def provoker(kind, j, deco=None):
@@ -52,6 +52,7 @@ def provoker(kind, j, deco=None):
             "nested_when": f'yes() -> @x = add(#n{j}, length(""))',
             "nested_not": 'not(simfault("s"))',
             "arg_match": f'between(#n{j}, length(""), 99)',
+            "rule_in_or": f"or(boolean(#b{j}), boolean(#b{j}))",
         }[kind]
     return {
         "exc_match": 'simfault("s")',
@@ -62,6 +63,7 @@ def provoker(kind, j, deco=None):
         "nested_when": f"yes() -> @x = add(#n{j}, 1)",
         "nested_not": 'not(simfault("s"))',
         "arg_match": f"between(#n{j}, 0, 99)",  # a function in match position: evaluated through matches(), not to_value()
+        "rule_in_or": f"or(boolean(#b{j}), boolean(#b{j}))",  # rule violations of or()'s options are parked and surfaced by or() itself
     }[kind]
 
 
@@ -95,6 +97,8 @@ def generate(rng, i, tier):
             scan = f"1-{max(2, int(b))}"
         inc = [l for l in inc if l >= 1] + ([2] if "-" in scan else [])
     managed = bool(pol) and rng.random() < 0.6
+    # logic-mode OR with the provoker as the ONLY component: an erroring line must still not match
+    or_single = (not managed) and ("raise" not in pol) and ("stop" not in pol) and rng.random() < 0.2
     k = rng.choice([1, 1, 2]) if managed else 1
     cand = [l for l in lines if l in inc and (l >= 1 or kind not in DATA_DRIVEN)]
     planted = []
@@ -122,7 +126,7 @@ def generate(rng, i, tier):
                 F = {rng.choice(cand)}
         planted.append(sorted(F))
     override = None
-    if rng.random() < (0.5 if managed else 0.35):
+    if not or_single and rng.random() < (0.5 if managed else 0.35):
         # the match/no-match overrides interact with every other flag: give them a third of the weight
         val = rng.choice(["match", "no-match", "stop,match", "no-match,fail"]) if rng.random() < 0.35 else rng.choice(OVERRIDES)
         override = {"member": rng.randrange(k), "value": val}
@@ -130,8 +134,10 @@ def generate(rng, i, tier):
     pre_shared = rng.choice(["no-raise,no-stop,no-fail,no-print", "raise", "print,fail", "stop", "no-print", "fail,stop"]) if (not managed and rng.random() < 0.25) else None
     # managed: the erroring component lives in another named-paths group and is pulled in with import()
     via_import = bool(managed and rng.random() < 0.15)
+    if or_single:
+        pre_shared = None
     tail = None
-    if cand and rng.random() < 0.3:
+    if cand and rng.random() < 0.3 and not or_single:
         # a stop() or skip() later on some line: errors already raised on that line must still be handled
         allF = sorted({l for F in planted for l in F})
         tl = rng.choice(allF) if (allF and rng.random() < 0.7) else rng.choice(cand)
@@ -142,6 +148,7 @@ def generate(rng, i, tier):
         "deco": "empty_term" if rng.random() < 0.2 else None,
         "pre_shared": pre_shared,
         "via_import": via_import,
+        "or_single": or_single,
         "tail": tail,
         "kind": kind,
         "nrec": nrec,
@@ -173,6 +180,8 @@ def reductions(sc):
         yield with_(sc, pre_shared=None)
     if sc.get("via_import"):
         yield with_(sc, via_import=False)
+    if sc.get("or_single"):
+        yield with_(sc, or_single=False)
     for j, F in enumerate(sc["planted"]):
         for l in F:
             c = with_(sc)
@@ -295,7 +304,7 @@ def build_rows(sc):
     k = len(sc["planted"])
     hdr = ["id"]
     for j in range(k):
-        hdr += [f"n{j}", f"w{j}", f"z{j}"]
+        hdr += [f"n{j}", f"w{j}", f"z{j}", f"b{j}"]
     rows = [hdr]
     for l in range(1, sc["nrec"]):
         if l in sc["blanks"]:
@@ -308,7 +317,8 @@ def build_rows(sc):
             n = "zz" if bad and kind in ("arg_type", "nested_when", "arg_match") else str((l * 7 + j) % 9 + 1)
             wv = "nope" if bad and kind == "rule" else "2024"
             z = "0" if bad and kind == "py_exc" else "3"
-            r += [n, wv, z]
+            b = "maybe" if bad and kind == "rule_in_or" else "true"
+            r += [n, wv, z, b]
         rows.append(r)
     return rows
 
@@ -318,6 +328,8 @@ def member_text(sc, j, file=""):
     head = f"id:m{j}"
     if ov and ov["member"] == j:
         head += f" validation-mode:{ov['value']}"
+    if sc.get("or_single"):
+        return f'~{head} logic-mode:OR~ ${file}[{sc["scan"]}][ {provoker(sc["kind"], j, sc.get("deco"))} ]'
     t = sc.get("tail")
     tail = f" line_number() == {t['line']} -> {t['kind']}()" if t else ""
     prov = f'import("lib{j}")' if sc.get("via_import") else provoker(sc["kind"], j, sc.get("deco"))
@@ -420,6 +432,8 @@ def execute(sc):
             cp = g["cp"]
             mw = f"{where} member m{j} planted {sc['planted'][j]} scan {sc['scan']} blanks {sc['blanks']}"
             pre = list(cp.variables.get("pre") or [])
+            if sc.get("or_single"):
+                pre = list(e["evaluated"])  # no bookkeeping components in this template: the evaluated lines are taken from the model
             bad = bad_lines(sc, j)
             hit = [l for l in e["evaluated"] if l in bad]
             if hit:
@@ -466,7 +480,7 @@ def execute(sc):
                 # (a 'cond -> stop()/skip()' tail votes no on every line where cond is false, so with a tail no clean line matches)
                 want_clean = [l for l in e["evaluated"] if l not in bad and l != tl] if (CLEAN_LINE_MATCHES[sc["kind"]] and not t) else []
                 got_clean = [l for l in ret if l not in bad and l != tl]
-                if got_clean != want_clean:
+                if got_clean != want_clean and not sc.get("or_single"):  # (in OR mode what a lone clean component votes is C01's business)
                     out.v(
                         "clean_line_affected",
                         f"{mw}: lines on which no component raised were returned as {got_clean}, expected {want_clean} (an error on another line must not change them)",
@@ -481,6 +495,7 @@ def execute(sc):
         out.sig = [sc["policy"], sc["kind"], how, sorted(set(pos)), facts["override"], len(sc["planted"]), sc["tail"]["kind"] if sc.get("tail") else None, bool(sc.get("via_import")), sc.get("pre_shared")]
         out.probe("erroring subtree contains an empty-string term", bool(sc.get("deco")))
         out.probe("erroring component pulled in with import()", bool(sc.get("via_import")))
+        out.probe("logic-mode OR with the erroring component alone", bool(sc.get("or_single")))
         out.probe("an earlier CsvPath sharing the Config object ran with a contradicting override", False)
         out.probe("stop()/skip() later on an offending line", bool(sc.get("tail")) and any(sc["tail"]["line"] in F for F in sc["planted"]))
         out.nontrivial = evaluated_any
